@@ -18,6 +18,8 @@ pub mod c05;
 #[cfg(feature = "c07")]
 pub mod c07;
 
+#[cfg(feature = "c08")]
+pub mod c08;
 #[cfg(feature = "c09")]
 pub mod c09;
 
